@@ -37,7 +37,7 @@ def lazy_caches(cls_node):
     return out
 
 
-def check_memo_keys(ctx, repo, rel, cls_name, rule):
+def check_memo_keys(ctx, repo, rel, cls_name, rule, follow_methods=False):
     cls = repo.cls(rel, cls_name)
     mod = repo.module(rel)
     assigned_outside_init = set()
@@ -68,6 +68,20 @@ def check_memo_keys(ctx, repo, rel, cls_name, rule):
         calls = {c.func.attr for c in ast.walk(value) if isinstance(c, ast.Call) and isinstance(c.func, ast.Attribute)
                  and isinstance(c.func.value, ast.Name) and c.func.value.id == 'self'}
         sources -= calls
+        # a method of the object called inside the cached expression reads whatever that method (and the methods it calls) reads
+        methods = {m2.name: m2 for m2 in cls.body if isinstance(m2, ast.FunctionDef)}
+        todo, done = (list(calls) if follow_methods else []), set()
+        while todo:
+            nm = todo.pop()
+            if nm in done or nm not in methods:
+                continue
+            done.add(nm)
+            for x in ast.walk(methods[nm]):
+                if isinstance(x, ast.Attribute) and isinstance(x.value, ast.Name) and x.value.id == 'self' and isinstance(x.ctx, ast.Load):
+                    if x.attr in methods:
+                        todo.append(x.attr)
+                    elif x.attr != attr and x.attr not in block_assigned:
+                        sources.add(x.attr)
         stale = sorted(s for s in sources if s not in tested and (not s.startswith('_') or s in assigned_outside_init))
         n_ok += 1
         ctx.check(rule, not stale, f, iff, '%s.%s: the cache self.%s is revalidated against everything it is computed from (%s)'
